@@ -5,9 +5,10 @@ import random
 import warnings
 import numpy as np
 from sklearn.base import clone
-from . import core
+from . import core, pylite_tie
 from .core import Case, cD, clist, cbool, cN
 
+obligations = pylite_tie.chain_obligations   # source-regenerated tie (harness/pylite_tie.py)
 ID = "C06"
 PROPS_FILE = "Props/C06.v"
 IMPORTS = "From Verde Require Import Model.Chain Model.ChainCases."
